@@ -4,6 +4,7 @@ import (
 	"fmt"
 	"go/token"
 	"go/types"
+	"strings"
 
 	"golang.org/x/tools/go/ssa"
 
@@ -25,7 +26,17 @@ func checkC02(c *Ctx) {
 	c.checkContentUnaltered()
 	c.checkPushAudience()
 	c.checkChannelPushNotDropped()
+	// the push for users hosted elsewhere is handed to their node: the local/remote split asks the ring
+	// by the same name the request is routed by
+	c.R.Scoped(func(rule, construct string) bool {
+		return strings.Contains(construct, "sendPush") || !strings.Contains(construct, ": ")
+	}, func() { c.checkRingKeyedByRoutableName("C17.1d-ring-keyed-by-routable-name") })
 	c.checkChannelNameNormalised()
+	// of the module-wide intersection census the predicates this property depends on: a copy goes to
+	// readers (R), a push to readers with presence (R, P) - each decided on want & given
+	c.R.Scoped(func(rule, construct string) bool {
+		return strings.HasPrefix(construct, "IsReader()") || strings.HasPrefix(construct, "IsPresencer()")
+	}, c.checkIntersect)
 	// who receives a message and a push is decided on the cached modes: they follow the store
 	c.checkCacheFollowsStore(map[string]bool{"ModeWant": true, "ModeGiven": true})
 	c.checkLocalCopyWrittenBack("C08.3c-local-copy-written-back", map[string]bool{"modeWant": true, "modeGiven": true, "deleted": true, "isChan": true})
